@@ -221,6 +221,20 @@ func buildOpt(cfg sn.Config, coins int) (*World, error) {
 		add("contract", sn.TxSpec{Initiator: k2.Address, Signers: []*sn.Key{k2}, Inputs: ins, InExt: res.Inputs, OutExt: res.Outputs, Requests: res.Requests,
 			Outputs: change([]sn.Out{{To: "$", Amount: big.NewInt(res.GasUsed)}}, k2.Address, tot, res.GasUsed)})
 	}
+	{ // two charged requests in one transaction: the fee has to cover their sum
+		p1 := (&sn.ProgBuilder{}).Put("vb0", []byte("two-a"), []byte("1")).Use(10, 20, 30, 0)
+		p2 := (&sn.ProgBuilder{}).Put("vb1", []byte("two-b"), []byte("2")).Use(10, 20, 30, 0)
+		res, err := n.PreExec([]*protos.InvokeRequest{sn.VerifReq(sn.VerifContract, p1.String()), sn.VerifReq(sn.VerifContract, p2.String())}, k2.Address, []string{k2.Address})
+		if err != nil {
+			return nil, err
+		}
+		if res.GasUsed <= 1 {
+			return nil, fmt.Errorf("corpus: the two-request contract item uses no gas")
+		}
+		ins, tot := w.sel(k2.Address, res.GasUsed)
+		add("contract-two-requests", sn.TxSpec{Initiator: k2.Address, Signers: []*sn.Key{k2}, Inputs: ins, InExt: res.Inputs, OutExt: res.Outputs, Requests: res.Requests,
+			Outputs: change([]sn.Out{{To: "$", Amount: big.NewInt(res.GasUsed)}}, k2.Address, tot, res.GasUsed)})
+	}
 	{ // contract call + token transfer + fee
 		p := (&sn.ProgBuilder{}).Put("vb1", []byte("x"), []byte("y")).Scan("vb0", []byte("a"), []byte("z"), -1)
 		res, err := n.PreExec([]*protos.InvokeRequest{sn.VerifReq(sn.VerifContract, p.String())}, k0.Address, []string{k0.Address})
